@@ -104,6 +104,10 @@ def one_run(cfg, chooser, max_steps=5000):
             self.vid = VConn._seq[0]
             rec({"e": "new", "th": threading.current_thread().name, "c": self.vid})
 
+        def close(self):
+            rec({"e": "cclose", "th": threading.current_thread().name, "c": getattr(self, "vid", 0)})
+            return super().close()
+
         def _new_conn(self):
             sock = super()._new_conn()
             sock.__class__ = _TSocket
@@ -130,6 +134,10 @@ def one_run(cfg, chooser, max_steps=5000):
         if oc == "fail":
             return vnet.Reply(data=b"", eof_after=0)
         body = tag.encode()
+        if oc == "partial":
+            # the body stalls half-way: headers promise twice what is written, the rest never comes
+            head = vnet.http_response(200, body + body, headers=[("X-Partial", "1")])
+            return vnet.Reply(data=head[:len(head) - len(body)], silent=True)
         if oc == "okclose":
             return vnet.Reply(vnet.http_response(200, body, keepalive=False), close=True)
         return vnet.Reply(vnet.http_response(200, body))
@@ -153,7 +161,11 @@ def one_run(cfg, chooser, max_steps=5000):
                     out, body, resp = "resp", "", None
                     try:
                         resp = box["pool"].urlopen("GET", "/" + tag, preload_content=not cfg["stream"])
-                        if cfg["stream"]:
+                        if cfg["stream"] and resp.headers.get("X-Partial"):
+                            # the caller takes what has arrived and gives the unfinished response back
+                            body = resp.read(len(tag)).decode("latin-1")
+                            resp.release_conn()
+                        elif cfg["stream"]:
                             body = resp.read().decode("latin-1")
                             resp.release_conn()
                         else:
